@@ -740,7 +740,28 @@ impl<'a> Gen<'a> {
         let start = self.rng.below(uni as u64) as u32;
         let stride = *self.rng.pick(&[1u32, 1, 3, 7]);
         let stride = if uni % stride == 0 && stride != 1 { 1 } else { stride };
-        if cap0 == 0 && !usable.is_empty() && self.rng.chance(3, 4) {
+        if cap0 == 0 && !usable.is_empty() && self.rng.chance(1, 7) {
+            // tombstone churn: fill exactly to capacity (no growth yet), remove most elements
+            // (the slots of a nearly full table become tombstones, so no free slot comes
+            // back), then add fresh keys: the very next insertion has to grow a table that is
+            // almost empty
+            let t = *self.rng.pick(&usable);
+            for i in 0..t {
+                push_insert(self, (start + i * stride) % uni);
+            }
+            let pct = *self.rng.pick(&[0u8, 5, 10, 20, 30]);
+            let seed = self.rng.next_u64();
+            if set {
+                self.shadow.sets[slot].retain(|&k| crate::world::pred_mask(seed, pct, k));
+                self.ops.push(Op::SRetain { s: su, pred: Pred::Mask(seed, pct) });
+            } else {
+                self.shadow.maps[slot].retain(|&k| crate::world::pred_mask(seed, pct, k));
+                self.ops.push(Op::Retain { m: su, pred: Pred::Mask(seed, pct), mutate: None });
+            }
+            for i in 0..self.rng.range(1, 4) as u32 {
+                push_insert(self, (start + (t + 1 + i) * stride) % uni);
+            }
+        } else if cap0 == 0 && !usable.is_empty() && self.rng.chance(3, 4) {
             let t = *self.rng.pick(&usable);
             let j = self.rng.below(11) as u32;
             let n = (t + 1 + j).min(uni - 1);
@@ -957,6 +978,19 @@ pub fn generate_c14(rng: &mut Rng) -> RunSpec {
                     }
                 }
             }
+        }
+    }
+    // sometimes one collection is (re)made from another by clone / clone_from: the copy adopts
+    // the source's hasher state and must be just as indistinguishable
+    if rng.chance(1, 3) {
+        let src = rng.below(3) as u8;
+        let dst = (src + 1 + rng.below(2) as u8) % 3;
+        if rng.chance(1, 2) {
+            ops.push(Op::CloneFrom { src, dst });
+            ops.push(Op::SCloneFrom { src, dst });
+        } else {
+            ops.push(Op::CloneTo { src, dst });
+            ops.push(Op::SCloneTo { src, dst });
         }
     }
     let observe = |ops: &mut Vec<Op>, rng: &mut Rng| {
